@@ -292,6 +292,16 @@ pub fn run_c04(a: &Args) {
     st.rule = "arbitrary buffers through the real Codec::decode under catch_unwind: every (size,type) header, truncations / extensions / bit flips / every enum byte value of valid frames of every kind, random strings; oracle: never panics, need-more leaves the buffer, exactly the announced frame (>= 4, <= buffer) is removed, framing error only for impossible lengths, bytes after the frame do not matter; distinct buffers of >= 4 bytes counted".into();
     st.sample("cls C 0003000000 -> frameerr 0".into());
     st.sample("cls C 0240000000090000 -> bad 8".into());
+    // whatever hostile input went before: the codec has no memory - a plain frame decodes after all of the above exactly as it does on a fresh thread
+    for compressed in [true, false] { for (ty, head) in [(12u8, vec![0u8, 0, 0, 0, 0]), (55, vec![0, 0, 1, 0, 0]), (14, vec![0, 0, 0, 0, 0]), (45, vec![0, 1, 0, 0, 0, 10, 10, 50, 20])] {
+        let mut body = vec![ty, 7]; body.extend(&head); body.extend_from_slice(b"canary!\0"); while (body.len() + 1) % 4 != 0 { body.push(0); }
+        let mut f = vec![if compressed { ((body.len() + 1) / 4) as u8 } else { (body.len() + 1) as u8 }]; f.extend(body);
+        st.evaluations += 1;
+        let here = cls_string(&decode_buf(compressed, &f)); let here_dbg = match decode_buf(compressed, &f) { Dec::Got(p, _) => format!("{:?}", p), d => cls_string(&d) };
+        let f2 = f.clone();
+        let fresh = std::thread::spawn(move || match decode_buf(compressed, &f2) { Dec::Got(p, _) => format!("{:?}", p), d => cls_string(&d) }).join().unwrap_or("thread panic".into());
+        if here_dbg != fresh { st.fail(format!("[C04] after the inputs of this run the frame {} decodes to {} ({here}), on a fresh thread to {}: earlier input changed what a later frame decodes to", hex(&f), here_dbg.chars().take(120).collect::<String>(), fresh.chars().take(120).collect::<String>()), format!("canary {} {}", mode_tag(compressed), hex(&f))); }
+    } }
     out.finish(&st);
 }
 
@@ -633,6 +643,13 @@ pub fn run_c11(a: &Args) {
                     }
                 }
             }
+            // ... also when the text before the NUL ends in the first half of a double-byte character (a name cut in mid-character): the NUL
+            // ends the text, it is not the character's second half
+            if text == "AB" { let fend = match align { None => off + n, Some(_) => b.len() }; if fend - off >= 10 { for mk in [&b"^J"[..], &b"^S"[..], &b"^K"[..], &b"^H"[..]] { for lead in [0x81u8, 0x9f, 0xe0, 0xfe] {
+                let mut dirty = b.clone(); let mut t: Vec<u8> = b"ab".to_vec(); t.extend_from_slice(mk); t.push(lead); t.push(0); while off + t.len() < fend { t.push(b'Z'); }
+                dirty[off..fend].copy_from_slice(&t[..fend - off]);
+                match decode_buf(compressed, &dirty) { Dec::Got(p3, _) => { let d = format!("{:?}", p3); if d.contains("ZZ") { st.fail(format!("[C11] {} field {idx}: the text ab{}<{lead:02x}> NUL residue: decoding runs past the NUL: {}", kind.name, String::from_utf8_lossy(mk), d.chars().take(140).collect::<String>()), format!("dirty {} {off} {fend} {}", mode_tag(compressed), hex(&dirty))); } }, _ => {} }
+            } } } }
             if let Dec::Got(p2, _) = decode_buf(compressed, b) { let d = format!("{:?}", p2); if text.is_ascii() && !text.is_empty() && !text.contains('^') && encoded.len() <= n.saturating_sub(1) && !d.contains(&format!("{:?}", text)) { st.fail(format!("[C11] {} decoded text differs from the written ASCII text", kind.name), id.clone()); } }
             // the text ends where its frame ends: with another frame right behind it in the receive buffer (a text that fills its frame has no
             // NUL to stop at) the decoded packet is the same and exactly the frame is consumed
